@@ -1,39 +1,77 @@
 /-
-  Specification side of "MathML and SVG elements are written under a default-namespace
-  declaration" (C19): a replay of the rendered token stream that tracks the default namespace
-  the *written* start tags declare.
+  Specification side of "MathML, SVG and XHTML elements are written under a default-namespace
+  declaration of their namespace" (C19_embedded): a replay of the rendered token stream that
+  tracks the default namespace the *written* start tags declare.
 -/
 import XotModel.Model.Html5
 
 namespace XotModel
 open Gen
 
+/-- The default namespace in force on top of a replay stack (`Env.noNamespace` = none declared). -/
+def dOf (st : List (Nat × Nat)) : Nat := (st.head?.map (·.2)).getD Env.noNamespace
+
 /-- Replay of a rendered stream.  Stack, innermost first: (namespace of the open element, default
-    namespace in force inside its start tag as written so far).  `Env.noNamespace` = none declared.
-    At the end of each start tag of a MathML / SVG element the default namespace in force must be
-    the element's own. -/
-def embeddedUnderDefault (c : HtmlCtx) : List (Nat × Nat) → List (Path × Output × OutputToken) → Bool
-  | _, [] => true
+    namespace in force inside its start tag as written so far).  A start tag inherits the default
+    of the enclosing element unless its own token carries the `xmlns="…"` declaration; a written
+    `xmlns="…"` token replaces it.  At the `>` of an element whose namespace must be written
+    unprefixed the default namespace in force must be the element's own: otherwise `none`. -/
+def embeddedReplay (c : HtmlCtx) :
+    List (Nat × Nat) → List (Path × Output × OutputToken) → Option (List (Nat × Nat))
+  | st, [] => some st
   | st, (_, o, tok) :: rest =>
     match o with
     | .startTagOpen name =>
       let ns := c.env.nsOfName name
-      let inherited := (st.head?.map (·.2)).getD Env.noNamespace
       let injected := tok.text ==
         fmt fmtHtmlStartTagOpenNs [c.env.localName name, serializeAttributeHtml (c.env.namespaceStr ns)]
-      embeddedUnderDefault c ((ns, if injected then ns else inherited) :: st) rest
+      embeddedReplay c ((ns, if injected then ns else dOf st) :: st) rest
     | .pfx p ns =>
       if p == Env.emptyPrefix && !tok.text.isEmpty then
         match st with
-        | (ens, _) :: st' => embeddedUnderDefault c ((ens, ns) :: st') rest
-        | [] => embeddedUnderDefault c st rest
-      else embeddedUnderDefault c st rest
+        | (ens, _) :: st' => embeddedReplay c ((ens, ns) :: st') rest
+        | [] => embeddedReplay c st rest
+      else embeddedReplay c st rest
     | .startTagClose =>
       match st with
       | (ens, d) :: _ =>
-        (if ens == c.h.mathml || ens == c.h.svg then d == ens else true) && embeddedUnderDefault c st rest
-      | [] => embeddedUnderDefault c st rest
-    | .endTag _ => embeddedUnderDefault c st.tail rest
-    | _ => embeddedUnderDefault c st rest
+        if c.h.mustBeUnprefixed ens && d != ens then none else embeddedReplay c st rest
+      | [] => embeddedReplay c st rest
+    | .endTag _ => embeddedReplay c st.tail rest
+    | _ => embeddedReplay c st rest
+
+/-- Every start tag of a MathML / SVG / XHTML element is written under a default-namespace
+    declaration of its namespace. -/
+def embeddedUnderDefault (c : HtmlCtx) (l : List (Path × Output × OutputToken)) : Bool :=
+  (embeddedReplay c [] l).isSome
+
+theorem embeddedReplay_append (c : HtmlCtx) (a b : List (Path × Output × OutputToken)) :
+    ∀ st, embeddedReplay c st (a ++ b) = (embeddedReplay c st a).bind (fun st' => embeddedReplay c st' b) := by
+  induction a with
+  | nil => intro st; simp [embeddedReplay]
+  | cons k a ih =>
+    intro st
+    obtain ⟨p, o, tok⟩ := k
+    cases o with
+    | startTagOpen name => simp only [List.cons_append, embeddedReplay, ih]
+    | startTagClose =>
+      cases st with
+      | nil => simp only [List.cons_append, embeddedReplay, ih]
+      | cons e st =>
+        obtain ⟨ens, d⟩ := e
+        simp only [List.cons_append, embeddedReplay, ih]
+        split <;> simp
+    | endTag name => simp only [List.cons_append, embeddedReplay, ih]
+    | pfx q ns =>
+      simp only [List.cons_append, embeddedReplay]
+      split
+      · cases st with
+        | nil => simp only [ih]
+        | cons e st => simp only [ih]
+      · simp only [ih]
+    | «attribute» name v => simp only [List.cons_append, embeddedReplay, ih]
+    | text s => simp only [List.cons_append, embeddedReplay, ih]
+    | comment s => simp only [List.cons_append, embeddedReplay, ih]
+    | pi tg d => simp only [List.cons_append, embeddedReplay, ih]
 
 end XotModel
